@@ -69,6 +69,12 @@ type Scenario struct {
 	Kut       int    `json:"kut"`
 	DealBlock int    `json:"dealBlock"` // block in which the other keypers' commitments and evals land
 	AccBlock  int    `json:"accBlock"`
+	SyncEvery int    `json:"syncEvery"` // the keyper under test calls SyncAppWithDB only after the blocks h with
+	SyncOff   int    `json:"syncOff"`   // h % SyncEvery == SyncOff (and after the last block): catch-up over several blocks
+}
+
+func (sc Scenario) syncNow(h int) bool {
+	return h%sc.SyncEvery == sc.SyncOff || h == sc.Cfg.LastBlock()
 }
 
 // scenarios: "together": every dealer's messages land in block 1; "staggered": the messages of the
@@ -76,8 +82,13 @@ type Scenario struct {
 // through the keyper's own commitment), the other dealers' in block 2, late in a longer dealing phase.
 func scenarios() []Scenario {
 	return []Scenario{
-		{Name: "together", Cfg: Cfg{N: 3, T: 2, Byz: []int{3}, PhaseLen: 2}, Kut: 1, DealBlock: 1, AccBlock: 3},
-		{Name: "staggered", Cfg: Cfg{N: 3, T: 2, Byz: []int{3}, PhaseLen: 3}, Kut: 1, DealBlock: 2, AccBlock: 4},
+		{Name: "together", Cfg: Cfg{N: 3, T: 2, Byz: []int{3}, PhaseLen: 2}, Kut: 1, DealBlock: 1, AccBlock: 3, SyncEvery: 1},
+		{Name: "staggered", Cfg: Cfg{N: 3, T: 2, Byz: []int{3}, PhaseLen: 3}, Kut: 1, DealBlock: 2, AccBlock: 4, SyncEvery: 1},
+		// lagging: one SyncAppWithDB call of the keyper under test handles 2 (blocks 0+1, 2+3, ..) resp.
+		// 3 (1-3, 4-6, ..) blocks, one transaction each; the EonStarted block / the block with the own
+		// commitment is not the last one of its batch
+		{Name: "lag2", Cfg: Cfg{N: 3, T: 2, Byz: []int{3}, PhaseLen: 3}, Kut: 1, DealBlock: 2, AccBlock: 4, SyncEvery: 2, SyncOff: 1},
+		{Name: "lag3", Cfg: Cfg{N: 3, T: 2, Byz: []int{3}, PhaseLen: 3}, Kut: 1, DealBlock: 1, AccBlock: 4, SyncEvery: 3, SyncOff: 0},
 	}
 }
 
@@ -105,6 +116,19 @@ type crashRun struct {
 	gm     []*shcrypto.Gammas
 }
 
+// dbSync is the relative height of the last block applied in the committed database.
+func (r *crashRun) dbSync() int {
+	h := int64(-1 << 40)
+	r.kut.PG.View(func(db *fakepg.DB) {
+		for _, m := range db.TendermintSyncMeta {
+			if m.CurrentBlock > h {
+				h = m.CurrentBlock
+			}
+		}
+	})
+	return int(h - r.w.H0)
+}
+
 func (r *crashRun) outboxLen() int {
 	n := 0
 	r.kut.PG.View(func(db *fakepg.DB) { n = len(db.TendermintOutgoingMessages) })
@@ -119,17 +143,18 @@ func (r *crashRun) matchWhere(wh *Where, ev fakepg.Event) (fakepg.Fault, bool) {
 		if r.stage != "sync" {
 			return fakepg.None, false
 		}
+		applied := r.dbSync() // blocks whose transaction is committed
 		switch {
-		case !wh.Tx && wh.Sync < wh.Head: // before the transaction of block sync+1
-			if r.blk == wh.Head && !ev.InTx && ev.Stmt != "commit" {
+		case !wh.Tx && wh.Sync < wh.Head: // before the transaction of block sync+1 (possibly in the middle of a batch)
+			if r.blk == wh.Head && !ev.InTx && ev.Stmt != "commit" && applied == wh.Sync {
 				return fakepg.DropBefore, true
 			}
 		case wh.Tx: // inside the transaction of block sync+1
-			if r.blk == wh.Head && ev.InTx {
+			if r.blk == wh.Head && ev.InTx && applied == wh.Sync {
 				return fakepg.DropBefore, true
 			}
-		default: // committed, reply lost
-			if r.blk == wh.Head && ev.Kind == fakepg.KindQuery && ev.Stmt == "commit" {
+		default: // the last transaction of the call committed, reply lost
+			if r.blk == wh.Head && ev.Kind == fakepg.KindQuery && ev.Stmt == "commit" && applied == wh.Head-1 {
 				return fakepg.DropAfterCommit, true
 			}
 		}
@@ -523,8 +548,10 @@ func executeCrash(sc Scenario, seed int64, run int, faults []Fault, twin []J, re
 		r.lines[0].Twin = r.lines[0].St
 	}
 	syncKut := func(blk int) error { return r.kutStep("sync", blk, func() { w.syncNode(r.kut) }) }
-	if err := syncKut(0); err != nil {
-		return r, err
+	if sc.syncNow(0) {
+		if err := syncKut(0); err != nil {
+			return r, err
+		}
 	}
 	last := sc.Cfg.LastBlock()
 	for b := 1; b <= last; b++ {
@@ -565,8 +592,10 @@ func executeCrash(sc Scenario, seed int64, run int, faults []Fault, twin []J, re
 		r.step++
 		r.mu.Unlock()
 		r.emit("close", b, nil, len(w.Panics))
-		if err := syncKut(b); err != nil {
-			return r, err
+		if sc.syncNow(b) {
+			if err := syncKut(b); err != nil {
+				return r, err
+			}
 		}
 		if b < last {
 			w.Chain.OpenBlock()
